@@ -19,8 +19,9 @@ VERIF = os.path.dirname(os.path.dirname(os.path.abspath(__file__)))
 SIM = os.path.join(VERIF, "sim")
 REPO = os.environ.get("VERIF_REPO", "/repo")
 BUILD_ROOT = os.path.join(VERIF, "build")
-EVIDENCE = os.path.join(VERIF, "evidence")
-REPLAYS = os.path.join(VERIF, "replays")
+SCRATCH = os.path.realpath(REPO) != "/repo"      # mutant / seeded-change runs never touch committed evidence
+EVIDENCE = os.path.join(VERIF, "evidence") if not SCRATCH else os.path.join(BUILD_ROOT, "scratch-evidence")
+REPLAYS = os.path.join(VERIF, "replays") if not SCRATCH else os.path.join(BUILD_ROOT, "scratch-replays")
 NCPU = int(os.environ.get("VERIF_JOBS", "16"))
 DEFAULT_SEED = 20261004
 
@@ -190,11 +191,17 @@ def parse_worker_output(text, variant, res, keep_hashes=False):
     return crashed
 
 
+CRASH_TOTAL = [0]
+CRASH_STORM = 60        # once this many crashes are collected the violation is established: stop restarting workers
+
+
 def run_chunk(args):
     binary, variant, world, mode, seed, lo, hi, tmpdir, keep_hashes = args
     res = BatchResult()
     cur = lo
     while cur < hi:
+        if CRASH_TOTAL[0] >= CRASH_STORM:
+            break
         tag = f"{variant}-{world}-{mode}-{cur}"
         cmd = [binary, "run", world, str(mode), str(seed), str(cur), str(hi),
                "--plans", os.path.join(tmpdir, "plans-" + tag), "--states", os.path.join(tmpdir, "states-" + tag)]
@@ -207,7 +214,8 @@ def run_chunk(args):
         if res.crashes and res.crashes[-1]["evhash"] == "crash":
             res.crashes[-1]["stderr"] = p.stderr[-3000:]
         cur = crashed + 1
-        if len(res.crashes) >= 20:
+        CRASH_TOTAL[0] += 1
+        if len(res.crashes) >= 10:
             break       # crash storm: the violation is established, do not burn the budget on restarts
     return res
 
@@ -427,9 +435,9 @@ def do_check(prop, tier, seed, scale=1.0, jobs=NCPU):
         by_key = {}
         for x in sorted(total.viols + total.crashes, key=lambda x: x["index"]):
             by_key.setdefault(x["key"], []).append(x)
-        reported = []; known_hits = []; other_prop = {}
+        reported = []; known_hits = []; other_prop = {}; unshrunk = []
         exit_code = 0
-        for key, xs in by_key.items():
+        for key, xs in sorted(by_key.items(), key=lambda kv: -len(kv[1])):
             kprop = key.split("/")[0]
             if kprop != prop:
                 other_prop[key] = len(xs)
@@ -447,6 +455,9 @@ def do_check(prop, tier, seed, scale=1.0, jobs=NCPU):
             kf = match_known(key, known)
             if kf is not None:
                 known_hits.append((kf, len(xs)))
+                continue
+            if len(reported) >= 3:
+                unshrunk.append((key, len(xs)))     # same batch, further symptom keys: listed, not minimised
                 continue
             small, cands = shrink(binary, text, key, budget_s=30 if tier == "quick" else 90)
             final, stderr = exec_plans(binary, [small], trace=True)
@@ -470,6 +481,8 @@ def do_check(prop, tier, seed, scale=1.0, jobs=NCPU):
             print(f"VIOLATION property={prop} replay={path}")
             print(f"  key={key} occurrences={cnt} detail={detail}")
             exit_code = 1
+        for key, cnt in unshrunk:
+            print(f"  also: key={key} occurrences={cnt} (not minimised)")
 
         wall = time.time() - t0
         probes = dict(sorted(total.probes.items()))
